@@ -1,1 +1,67 @@
 // ---- meaning-level contracts for the expression constructors ----
+/// `&&` / `||` of two boolean literals is folded to the literal; anything else builds the node
+pub open spec fn fold_and<T>(e1: Expr<T>, e2: Expr<T>) -> ExprKind<T> {
+    match (e1.expr_kind, e2.expr_kind) {
+        (ExprKind::Lit(Literal::Bool(b1)), ExprKind::Lit(Literal::Bool(b2))) => ExprKind::Lit(Literal::Bool(b1 && b2)),
+        _ => ExprKind::And { left: Arc::new(e1), right: Arc::new(e2) },
+    }
+}
+pub open spec fn fold_or<T>(e1: Expr<T>, e2: Expr<T>) -> ExprKind<T> {
+    match (e1.expr_kind, e2.expr_kind) {
+        (ExprKind::Lit(Literal::Bool(b1)), ExprKind::Lit(Literal::Bool(b2))) => ExprKind::Lit(Literal::Bool(b1 || b2)),
+        _ => ExprKind::Or { left: Arc::new(e1), right: Arc::new(e2) },
+    }
+}
+pub open spec fn is_not<T>(e: Expr<T>) -> bool { e.expr_kind is UnaryApp && e.expr_kind->UnaryApp_op == UnaryOp::Not }
+pub open spec fn not_arg<T>(e: Expr<T>) -> Arc<Expr<T>> { e.expr_kind->UnaryApp_arg }
+pub open spec fn is_bin<T>(e: Expr<T>, op: BinaryOp, a: Expr<T>, b: Expr<T>) -> bool {
+    e.expr_kind == (ExprKind::BinaryApp { op, arg1: Arc::new(a), arg2: Arc::new(b) })
+}
+#[verifier::external_body] pub fn vx_default<T: Default>() -> (r: T) { unimplemented!() }
+/// #[derive(Clone)] on ExprBuilder
+impl<T: Clone> Clone for ExprBuilder<T> { #[verifier::external_body] fn clone(&self) -> (r: Self) ensures r.source_loc == self.source_loc { unimplemented!() } }
+/// an expression node with this kind (source location and data are not semantic)
+pub open spec fn mk(k: ExprKind) -> Expr { Expr { expr_kind: k, source_loc: None, data: () } }
+/// evaluate both operands left to right, then combine the two values
+pub open spec fn sem2(ev: &Evaluator<'_>, slots: SlotEnv, e1: Expr, e2: Expr, f: spec_fn(ValueKind, ValueKind) -> Res) -> Res {
+    match sem(ev, slots, e1) { Res::Val(k1) => match sem(ev, slots, e2) { Res::Val(k2) => f(k1, k2), r => r }, r => r }
+}
+/// the ordering of comparable extension values is total (the operations themselves: C07)
+pub broadcast axiom fn axiom_ext_total(x: RepresentableExtensionValue, y: RepresentableExtensionValue)
+    ensures #![trigger ext_lt(y, x)] #![trigger ext_le(x, y)] ext_lt(y, x) == !ext_le(x, y);
+/// same meaning in every evaluator and slot environment
+pub open spec fn sem_same(a: Expr, b: Expr) -> bool { forall|ev: &Evaluator<'_>, slots: SlotEnv| #[trigger] sem(ev, slots, a) == sem(ev, slots, b) }
+pub proof fn lemma_fold_and(r: Expr, e1: Expr, e2: Expr)
+    requires r.expr_kind == fold_and(e1, e2),
+    ensures sem_same(r, mk(ExprKind::And { left: Arc::new(e1), right: Arc::new(e2) })),
+{
+    reveal_with_fuel(sem, 3);
+    let a = mk(ExprKind::And { left: Arc::new(e1), right: Arc::new(e2) });
+    assert forall|ev: &Evaluator<'_>, slots: SlotEnv| #[trigger] sem(ev, slots, r) == sem(ev, slots, a) by {
+        let s1 = sem(ev, slots, e1); let s2 = sem(ev, slots, e2);
+    }
+}
+pub proof fn lemma_fold_or(r: Expr, e1: Expr, e2: Expr)
+    requires r.expr_kind == fold_or(e1, e2),
+    ensures sem_same(r, mk(ExprKind::Or { left: Arc::new(e1), right: Arc::new(e2) })),
+{
+    reveal_with_fuel(sem, 3);
+    let a = mk(ExprKind::Or { left: Arc::new(e1), right: Arc::new(e2) });
+    assert forall|ev: &Evaluator<'_>, slots: SlotEnv| #[trigger] sem(ev, slots, r) == sem(ev, slots, a) by {
+        let s1 = sem(ev, slots, e1); let s2 = sem(ev, slots, e2);
+    }
+}
+/// `!(e1 op e2)` for op in ==, <=, <  means  e1 != e2,  e1 > e2,  e1 >= e2
+pub proof fn lemma_not_bin(r: Expr, op: BinaryOp, e1: Expr, e2: Expr)
+    requires is_not(r), is_bin(*not_arg(r), op, e1, e2), op == BinaryOp::Eq || op == BinaryOp::LessEq || op == BinaryOp::Less,
+    ensures forall|ev: &Evaluator<'_>, slots: SlotEnv| #[trigger] sem(ev, slots, r) == sem2(ev, slots, e1, e2, |a: ValueKind, b: ValueKind|
+        if op == BinaryOp::Eq { Res::Val(vbool(!kind_eq(a, b))) } else if op == BinaryOp::LessEq { sem_relation(BinaryOp::Less, vk(b), vk(a)) } else { sem_relation(BinaryOp::LessEq, vk(b), vk(a)) }),
+{
+    reveal_with_fuel(sem, 3);
+    broadcast use axiom_ext_total;
+    assert forall|ev: &Evaluator<'_>, slots: SlotEnv| #[trigger] sem(ev, slots, r) == sem2(ev, slots, e1, e2, |a: ValueKind, b: ValueKind|
+        if op == BinaryOp::Eq { Res::Val(vbool(!kind_eq(a, b))) } else if op == BinaryOp::LessEq { sem_relation(BinaryOp::Less, vk(b), vk(a)) } else { sem_relation(BinaryOp::LessEq, vk(b), vk(a)) }) by {
+        let s1 = sem(ev, slots, e1); let s2 = sem(ev, slots, e2);
+        let inner = sem(ev, slots, *not_arg(r));
+    }
+}
